@@ -288,6 +288,23 @@ def c06(r):
     if label not in TERMINAL:
         out.append(F('c06-stuck:' + r.phase(), 'a woken process never stays WAITING forever', dict(ops=r.ops)))
         return out
+    pf = getattr(r, 'pre_final', None)
+    if pf is not None and pf['state'] == 'waiting':
+        # quiescent and still WAITING before the harness' completing play/resume: legitimate only if the process was not woken
+        # or is not playing.  "Playing" is decided by the REQUESTS (the last of pause/play is a play that returned True, or
+        # there was no pause at all), not by what the process reports.
+        calls = r.calls[:pf['n_calls']]
+        pp = [c for c in calls if c['op'] in ('pause', 'play') and not c['raised']]
+        playing = not pp or (pp[-1]['op'] == 'play' and pp[-1]['ret'] == 'T')
+        if r.prog['kind'] == 'proc':
+            woken = any(c['op'] == 'resume' and not c['raised'] and c['phase'].startswith('waiting') for c in calls) and \
+                sum(1 for e in r.entered if e == 'waiting') == 1
+        else:
+            woken = bool(pf['futs_done']) and all(pf['futs_done'])
+        if woken and playing and not any(c['op'] in ('kill', 'fail', 'cancelfut') for c in calls):
+            out.append(F('c06-stuck-while-playing', 'a resumed process continues once it is playing (the last request was play(), '
+                         'or it was never paused), however the wake-up was interleaved', dict(ops=r.ops, paused_reported=pf['paused'])))
+            return out
     for c in r.calls:
         if c['op'] == 'resume' and c['raised'] and c['phase'].startswith('waiting'):
             out.append(F('c06-resume-raised:' + c['raised'], 'resume() on a waiting process is accepted', dict(ops=r.ops[:c['idx'] + 1])))
